@@ -144,7 +144,7 @@ class ImplRun:
                 c = op.get("c")
                 if c is not None and not op.get("ctypeok", True):
                     c = tuple(tuple(x) for x in c)
-                rec["result"] = (mab.predict_expectations if kind == "pexp" else mab.predict)(c)
+                rec["result"] = copy.deepcopy((mab.predict_expectations if kind == "pexp" else mab.predict)(c))
             elif kind == "add":
                 b = op.get("binz")
                 bf = None
@@ -228,10 +228,16 @@ class ImplRun:
                             r.append(0)
                     ql.append(r)
                 out["qleaves"] = ql
-        elif k in ("radius", "knn") and npc["metric"] not in EXACT_METRICS and kind in ("pexp", "pred"):
+        elif k in ("radius", "knn") and kind in ("pexp", "pred"):
             c = as_matrix(op["c"])
-            out["dists"] = [cdist(imp.contexts, row[np.newaxis, :], metric=npc["metric"]).reshape(-1).tolist()
-                            for row in c]
+            if npc["metric"] not in EXACT_METRICS:
+                out["dists"] = [cdist(imp.contexts, row[np.newaxis, :], metric=npc["metric"]).reshape(-1).tolist()
+                                for row in c]
+            if k == "knn":
+                # a tie-break for the k nearest rows (the model checks that it is a valid one)
+                out["ksets"] = [[int(j) for j in np.argpartition(
+                    cdist(imp.contexts, row[np.newaxis, :], metric=npc["metric"]).reshape(-1), npc["kk"] - 1)[:npc["kk"]]]
+                    for row in c]
         return out
 
     # -- labels of recorded requests
@@ -326,8 +332,8 @@ def enc_op(op, run, rec, ksets=None):
         lines.append("oracle qleaves " + natrows(o["qleaves"]))
     if "dists" in o:
         lines.append("oracle dists " + rows(o["dists"]))
-    if ksets:
-        lines.append("oracle ksets " + natrows(ksets))
+    if "ksets" in o:
+        lines.append("oracle ksets " + natrows(o["ksets"]))
     kind = op["op"]
     if kind in ("fit", "pfit"):
         lines.append("%s type=%d ctype=%d d=%s r=%s c=%s" % (
